@@ -70,6 +70,18 @@ Fixpoint hwf (t : tmpl) : bool :=
   | TCustom _ _ => true
   end.
 
+(* the open finding (list template against an empty dict value) cannot be reached on a template without list nodes *)
+Fixpoint nolist (t : tmpl) : bool :=
+  match t with
+  | TList _ => false
+  | TDict kvs => forallb (fun kv => nolist (snd kv)) kvs
+  | TObj _ kvs => forallb (fun kv => nolist (snd kv)) kvs
+  | TOneOf cands _ => forallb nolist cands
+  | TManyOf _ cands _ _ _ => forallb nolist cands
+  | _ => true
+  end.
+Definition avoids (q : hquirks) (t : tmpl) : Prop := q_list_dict q = true -> nolist t = true.
+
 Section Spec.
   Variable cdec : nat -> str -> result tmpl.
   Variable w : tmpl -> bool.
